@@ -9,7 +9,7 @@ use crate::fdrive::{check_terminal, consume_body, drain_stream, show, BodyObs, S
 use crate::indep::{self, Enc};
 use crate::pb::Msg;
 use crate::rawcodec::{RawCfg, RawCodec, RawMsg};
-use crate::seams::{cut_bytes, Ev, SimBody, SimSource};
+use crate::seams::{cut_bytes, Ev, Segmented, SimBody, SimSource};
 use bytes::Bytes;
 use http::StatusCode;
 use prost::Message;
@@ -191,7 +191,7 @@ pub fn run(sim: &Sim, _idx: u64) {
     if let Some(t) = &sent_trailers {
         evs.push(Ev::Trailers(t.clone()));
     }
-    let body = SimBody::new(sim, "wire", evs, cfg.body_pending, sim.chance(1, 4));
+    let body = Segmented::new(SimBody::new(sim, "wire", evs, cfg.body_pending, sim.chance(1, 4)));
     let extra = sim.range(1, 4) as u32;
     let want_status = cfg.role == Role::Server;
 
